@@ -12,8 +12,9 @@ Tie to the code (differential, through `Grid.get_ball_tree/get_kd_tree(...).quer
 for every generated (grid, element kind, tree, coordinate system, metric, query form, unit, k / r)
 the Lean driver computes the distances with the model's metric / query preparation at Float,
 evaluates `knnSpecB` / `radiusSpecB` on the IMPLEMENTATION's indices, compares the reported
-distances (float clause, tolerance 1e-7 relative) and the model's own answer.  Near-ties
-(gap < 1e-9 in the tree's unit) are counted and dropped.  Request histories on one grid are run
+distances (float clause, tolerance 1e-7 relative) and the model's own answer.  Rows with near-ties
+(gap < 1e-9 in the tree's unit) are judged by the specification up to 1e-9 (knn_tol_profile / radius_tol_sandwich); only
+near-ties within 1e-6 of the haversine antipode that fail it are dropped (ill-conditioned float formula).  Request histories on one grid are run
 through the cache state machine and the handed-back wrapper is judged by `reflects`.
 """
 
@@ -144,11 +145,29 @@ def judge_knn_row(ctx, cfg, E, q, k, idx, ds, inp, what="query"):
         return "fail"
     tie, spec, b_len, b_range, b_nodup, b_sorted, b_min, b_dist = [t.int() for _ in range(8)]
     midx, mds, gap = t.ints(), t.floats(), t.float()
-    if tie:
-        ctx.hit("near-tie-dropped")
-        return "tie"
+    spec_tol, illcond = t.int(), t.int()
     impl = dict(indices=[int(x) for x in idx], distances=None if ds is None else [float(x) for x in ds])
     model = dict(indices=midx, distances=mds, gap=gap)
+    if tie:
+        # near-ties among the first k+1 distances: judged by the specification up to 1e-9
+        # (Props: knn_tol_profile — the answer has the brute-force distance profile up to 1e-9 at every
+        # position; knn_spec_of_profile — no valid tie-breaking is rejected)
+        if spec_tol and (b_dist or ds is None):
+            ctx.hit("near-tie-judged-tolerantly")
+            return "ok-tol"
+        if illcond:
+            ctx.hit("near-tie-dropped:ill-conditioned-antipode")
+            return "tie"
+        if spec_tol:
+            ctx.fail(f"C11/dist-unit/{sig_cfg(kind, sys_, metric)}/in_radians={in_rad}",
+                     f"{kind} tree ({sys_}, {metric}) reports distances that are not the documented-unit distances "
+                     f"of the returned elements (row with near-ties)", inp, impl, model, ["unit_roundtrip"])
+            return "fail"
+        clauses = [n for n, b in (("len", b_len), ("range", b_range), ("nodup", b_nodup)) if not b] or ["sorted/minimal-up-to-1e-9"]
+        ctx.fail(f"C11/knn/{sig_cfg(kind, sys_, metric)}/near-tie/{'+'.join(clauses)}",
+                 f"{kind} tree ({sys_}, {metric}) k-nearest answer on a row with near-ties is not a valid k-nearest "
+                 f"answer even up to 1e-9: {clauses}", inp, impl, model, ["knn_tol_profile"])
+        return "fail"
     if not spec:
         clauses = [n for n, b in (("len", b_len), ("range", b_range), ("nodup", b_nodup), ("sorted", b_sorted),
                                   ("minimal", b_min)) if not b]
@@ -178,11 +197,16 @@ def judge_radius_row(ctx, cfg, E, q, r, idx, ds, inp):
         return "fail"
     tie, spec, b_range, b_nodup, b_dist = [t.int() for _ in range(5)]
     midx, mds, rin = t.ints(), t.floats(), t.float()
+    spec_tol = t.int()
     if tie:
-        ctx.hit("near-tie-dropped")
-        return "tie"
+        # an element within 1e-9 of the boundary: judged by the radius specification up to 1e-9
+        # (Props: radius_tol_sandwich — everything within r-1e-9 returned, nothing beyond r+1e-9)
+        if spec_tol and (b_dist or ds is None):
+            ctx.hit("boundary-tie-judged-tolerantly")
+            return "ok-tol"
+        spec = spec_tol
     impl = dict(indices=[int(x) for x in idx], distances=None if ds is None else [float(x) for x in ds])
-    model = dict(indices=midx, distances=mds, radius_in_tree_unit=rin)
+    model = dict(indices=midx, distances=mds, radius_in_tree_unit=rin, boundary_tie=bool(tie))
     if not spec:
         # does the answer match the as-is unit handling of the k-d tree?
         t2 = common.Tok(ctx.driver.ask("C11.radius", 1, *args))
@@ -207,7 +231,7 @@ def judge_radius_row(ctx, cfg, E, q, r, idx, ds, inp):
                  f"{kind} tree ({sys_}, {metric}) query_radius reports distances that are not the documented-unit "
                  f"distances of the returned elements", inp, impl, model, ["unit_roundtrip"])
         return "fail"
-    if sorted(int(x) for x in idx) != midx:
+    if not tie and sorted(int(x) for x in idx) != midx:
         ctx.mismatch("C11/radius-model-vs-impl", inp, impl, model)
     ctx.hit("radius-row-judged-ok")
     return "ok"
@@ -354,7 +378,13 @@ def run_knn(ctx, tree, cfg, E, coords, qs, k, form, inp, kw=None, LL=None, chose
             t = common.Tok(out)
             if t.word() == "ok":
                 tie, spec = t.int(), t.int()
-                if tie:
+                for _ in range(6):
+                    t.int()
+                t.ints(), t.floats(), t.float()
+                spec_tol = t.int()
+                if tie and spec_tol:
+                    ctx.hit("chord-vs-arc:agree-up-to-1e-9")
+                elif tie:
                     ctx.hit("chord-vs-arc:near-tie-dropped")
                 elif not spec:
                     ctx.fail(f"C11/chord-vs-arc/{kind}", "the chord-nearest elements of a Cartesian tree are not the "
@@ -741,7 +771,8 @@ def run(ctx):
     ctx.assumptions = [
         "sklearn BallTree/KDTree are an external parameter of the model, assumed to return what brute force returns; validated "
         "case by case (the Lean spec is evaluated on the implementation's output)",
-        "element coordinates are taken as the grid reports them (their correctness is C04); near-ties (gap < 1e-9) are dropped",
+        "element coordinates are taken as the grid reports them (their correctness is C04); rows with near-ties (gap < 1e-9) are judged by the specification up to 1e-9 (knn_tol_profile, radius_tol_sandwich), "
+        "only haversine near-ties within 1e-6 of the antipode that fail it are dropped",
         "Float execution of the model (libm sin/cos/asin/sqrt) vs the theorems over R: rounding is modelled, not verified; "
         "reported distances are compared with relative tolerance 1e-7",
         "documented units: BallTree docstring (lon, lat; r in degrees), KDTree docstring (lat, lon), user guide "
